@@ -13,7 +13,7 @@ from gbasis.integrals.moment import moment_integral
 from gbasis.integrals.overlap import overlap_integral
 
 RULE = ("Shards enumerate the 25 ordered (l_a,l_b) pairs 0..4; Hypothesis draws a basis of 2-3 generalized mixed-type "
-        "shells, an origin (on a centre / off centre / far up to 100 bohr), a list of 1-6 order triples from (0..4)^3 "
+        "shells, an origin (on a centre / 1e-10..1e-4 off a centre / off centre / far up to 100 bohr), a list of 1-6 order triples from (0..4)^3 "
         "with repetition and in arbitrary sequence (thorough: a second sub-check sweeps all 125 triples per cell), an "
         "optional transformation matrix and a second origin.  Oracle: R1 three-factor integrals in list order, "
         "tolerance 1e-8*(<a|m^2|a><b|m^2|b>)^(1/4) (Cauchy-Schwarz scale, from the oracle); order (0,0,0) = overlap; "
